@@ -15,27 +15,27 @@ var sampAssume = "sampling, not enumeration: a clean batch is evidence, not proo
 
 var props = map[string]*PropCfg{
 	"C03": {ID: "C03", Level: "exploration", Variants: []Variant{vDef},
-		QuickRuns: 24000, ThoroughRuns: 3000000, QuickSecs: 45, ThoroughSecs: 900,
+		QuickRuns: 40000, ThoroughRuns: 3000000, QuickSecs: 45, ThoroughSecs: 900,
 		Rule:        "one run = one seeded world (1-3 segments: built / persisted+opened / merged; doc-value chunk size from {1,2,3,7,64,1024}) and a seeded history of VisitDocValues calls (ascending, descending, random, repeated, chunk-crossing; state nil / reused for the same field list / carried over from another segment / from a closed segment); non-trivial = at least one visit with a reused state landed in a different chunk than the previous one; distinct = distinct digests of the run's event log",
 		Assumptions: []string{relAssume, sampAssume, "terms do not contain byte 0xFF; GeoShape extra doc values are not generated"}},
 	"C04": {ID: "C04", Level: "exploration", Variants: []Variant{vDef, vVec},
-		QuickRuns: 20000, ThoroughRuns: 2000000, QuickSecs: 45, ThoroughSecs: 900,
+		QuickRuns: 24000, ThoroughRuns: 2000000, QuickSecs: 45, ThoroughSecs: 900,
 		Rule:        "one run = one seeded world and 1-4 seeded batches, each built, streamed with WriteTo, persisted, read back byte for byte, footer/CRC checked against the documented v16 layout, re-opened and compared with the in-memory segment over the complete read surface; non-trivial = at least one non-empty batch; distinct = distinct digests of the run's event log",
 		Assumptions: []string{relAssume, sampAssume, "vectors variant uses the stub engine"}},
 	"C05": {ID: "C05", Level: "exploration", Variants: []Variant{vDef},
-		QuickRuns: 18000, ThoroughRuns: 2000000, QuickSecs: 45, ThoroughSecs: 900,
+		QuickRuns: 22000, ThoroughRuns: 2000000, QuickSecs: 45, ThoroughSecs: 900,
 		Rule:        "one run = one seeded segment store driven through 3-12 build / persist+open / merge / change-chunk-mode operations (merge inputs: 1-4 segments of mixed provenance incl. earlier merge outputs, deletion bitmaps nil/empty/one/partial/all-but-one/all, aborted merges interleaved); every merge output is compared with its inputs remapped through the returned maps; non-trivial = at least one merge with survivors; distinct = distinct digests of the run's event log",
 		Assumptions: []string{relAssume, sampAssume}},
 	"C06": {ID: "C06", Level: "exploration", Variants: []Variant{vDef},
-		QuickRuns: 14000, ThoroughRuns: 2000000, QuickSecs: 45, ThoroughSecs: 900,
+		QuickRuns: 17000, ThoroughRuns: 2000000, QuickSecs: 45, ThoroughSecs: 900,
 		Rule:        "as C05, comparing dictionaries, postings (frequency, norm, locations with source-field names) and doc values of every merge output with its inputs remapped; non-trivial = at least one merge with survivors; distinct = distinct digests of the run's event log",
 		Assumptions: []string{relAssume, sampAssume, "a field with at least one token has analysed length >= 1 (norm 0 is the 'not single-hit' marker)"}},
 	"C07": {ID: "C07", Level: "exploration", Variants: []Variant{vDef},
-		QuickRuns: 26000, ThoroughRuns: 3000000, QuickSecs: 45, ThoroughSecs: 900,
+		QuickRuns: 32000, ThoroughRuns: 3000000, QuickSecs: 45, ThoroughSecs: 900,
 		Rule:        "one run = one seeded world (built / opened / merged segments, chunk modes incl. 1,2,3) and a seeded history of postings-list uses: (term, exclusion bitmap) x Next/Advance sequences x detail-flag combinations, the list and iterator objects passed back in as preallocation across terms, fields and segments, ReplaceActual mid-iteration; non-trivial = at least one sequence with an Advance that skipped hits and one reuse of a preallocated object; distinct = distinct digests of the run's event log",
 		Assumptions: []string{relAssume, sampAssume, "Advance targets are strictly beyond the last returned document, as the interface requires"}},
 	"C08": {ID: "C08", Level: "exploration", Variants: []Variant{vDef},
-		QuickRuns: 20000, ThoroughRuns: 3000000, QuickSecs: 45, ThoroughSecs: 900,
+		QuickRuns: 30000, ThoroughRuns: 3000000, QuickSecs: 45, ThoroughSecs: 900,
 		Rule:        "one run = one seeded world (built / opened / merged once / merged repeatedly) and a seeded list of dictionary iterations: automaton (nil, match-all, exact, prefix, regexp, levenshtein 1-2, never) x key range (bounds absent / equal to / between / below / above existing terms); counts compared with fresh postings lists; non-trivial = at least one iteration over a merged segment returning >= 2 terms; distinct = distinct digests of the run's event log",
 		Assumptions: []string{relAssume, sampAssume}},
 	"C10": {ID: "C10", Level: "exploration", Variants: []Variant{vDef, vVec, share(vRace, 1)},
@@ -47,15 +47,15 @@ var props = map[string]*PropCfg{
 		Rule:        "one run = 1-3 shared segments (memory / mmap / merged, with synonyms), a solo history prefix shaping the scratch pools, then 2-6 reader tasks with seeded op lists (term queries, dictionary iterations, stored-field visits that continue / stop at _id / stop later / nest, DocID, DocNumbers, doc-value visits, thesaurus lookups, a merge reading the shared segments) interleaved at every harness callback and zapx yield hook; each call's result is compared with its solo result on a twin instance, visitor bytes are re-checked after a yield inside the callback, pool ownership is monitored; non-trivial = at least two tasks interleaved inside calls; distinct = distinct digests of the run's event log",
 		Assumptions: []string{relAssume, sampAssume, "race variant: Go race detector under an invisible (raw-syscall) baton"}},
 	"C13": {ID: "C13", Level: "exploration", Variants: []Variant{vDef},
-		QuickRuns: 16000, ThoroughRuns: 2000000, QuickSecs: 45, ThoroughSecs: 900,
+		QuickRuns: 23000, ThoroughRuns: 2000000, QuickSecs: 45, ThoroughSecs: 900,
 		Rule:        "as C05 with synonym documents in every world; thesauri of every merge output compared with the inputs' (term, synonym, document) triples remapped; non-trivial = at least one merge with survivors whose inputs hold synonym definitions; distinct = distinct digests of the run's event log",
 		Assumptions: []string{relAssume, sampAssume}},
 	"C15": {ID: "C15", Level: "exploration", Variants: []Variant{vVec},
-		QuickRuns: 8000, ThoroughRuns: 1500000, QuickSecs: 45, ThoroughSecs: 900,
+		QuickRuns: 13000, ThoroughRuns: 1500000, QuickSecs: 45, ThoroughSecs: 900,
 		Rule:        "as C05 in the vectors build with vector fields in every world; exhaustive search results of every merge output compared with the inputs' results remapped; non-trivial = at least one merge with survivors whose inputs hold vectors; distinct = distinct digests of the run's event log",
 		Assumptions: []string{relAssume, sampAssume, "stub vector engine (exact brute force); FAISS itself is not exercised"}},
 	"C16": {ID: "C16", Level: "exploration", Variants: []Variant{share(vVec, 3), share(vVecR, 1)},
-		QuickRuns: 12000, ThoroughRuns: 1200000, QuickSecs: 60, ThoroughSecs: 1200,
+		QuickRuns: 36000, ThoroughRuns: 1200000, QuickSecs: 60, ThoroughSecs: 1200,
 		Rule:        "one run = one segment with 1-2 vector fields and a seeded history of open(field, filtering, except) / search / filtered search / close-handle / expiry tick / segment close events, single task or 2-4 interleaved tasks; every search is compared with the same search on a fresh twin opened from the same bytes; engine-side accounting and a handle model decide index lifetime; non-trivial = a search ran on a cache entry created by an earlier call with a different exclusion bitmap, or after an eviction and reload, or two tasks interleaved; distinct = distinct digests of the run's event log",
 		Assumptions: []string{relAssume, sampAssume, "stub vector engine; expiry is an explicit event through the verif hook (one cleanup pass = one monitor tick), the 1 s ticker itself is parked"}},
 	"C17": {ID: "C17", Level: "fault_enumeration", Variants: []Variant{share(vDef, 3), share(vVec, 1)},
@@ -63,15 +63,15 @@ var props = map[string]*PropCfg{
 		Rule:        "one run = one seeded input (segment or merge scenario) and a set of write faults on it: WriteTo with a failing writer at byte N (error, short write with error, short write without error); Persist and Merge with RLIMIT_FSIZE=N (torn write + EFBIG), symlink to /dev/full (ENOSPC), symlink to /dev/null (fsync fails), directory at path, missing parent; offsets: 0, 1, flush-boundary +-1, footer first/middle/last byte, L-1, plus seeded ones (small inputs: every offset); non-trivial = at least one fault fired inside the operation; distinct = distinct digests of the run's event log",
 		Assumptions: []string{sampAssume, "faults are injected in the real kernel and in the io.Writer argument; no simulated disk"}},
 	"C18": {ID: "C18", Level: "fault_enumeration", Variants: []Variant{share(vDef, 3), share(vVec, 1)},
-		QuickRuns: 12000, ThoroughRuns: 1200000, QuickSecs: 60, ThoroughSecs: 1200,
+		QuickRuns: 20000, ThoroughRuns: 1200000, QuickSecs: 60, ThoroughSecs: 1200,
 		Rule:        "one run = one seeded merge scenario; a dry run counts the K write callbacks (and engine calls); then the channel is closed before the call, from callback k for a sample (thorough: all) of k in 1..K, after return, and by a concurrent closer task; non-trivial = the cancellation landed while the merge was in progress; distinct = distinct digests of the run's event log",
 		Assumptions: []string{sampAssume, "nothing observable happens between two consecutive write callbacks except isClosed polls, so callback instants cover every distinguishable cancellation instant of that input"}},
 	"C19": {ID: "C19", Level: "fault_enumeration", Variants: []Variant{vVec},
-		QuickRuns: 14000, ThoroughRuns: 1500000, QuickSecs: 60, ThoroughSecs: 1200,
+		QuickRuns: 30000, ThoroughRuns: 1500000, QuickSecs: 60, ThoroughSecs: 1200,
 		Rule:        "one run = one seeded build or merge scenario with vector fields; a dry run records the engine call sequence; then every (operation, n) of it (quick: a sample) is failed once; non-trivial = the injected failure fired; distinct = distinct digests of the run's event log",
 		Assumptions: []string{sampAssume, "stub vector engine with a fault plan; FAISS itself is not exercised"}},
 	"C20": {ID: "C20", Level: "exploration", Variants: []Variant{share(vDef, 3), share(vRace, 1), share(vVec, 1)},
-		QuickRuns: 12000, ThoroughRuns: 1200000, QuickSecs: 45, ThoroughSecs: 900,
+		QuickRuns: 18000, ThoroughRuns: 1200000, QuickSecs: 45, ThoroughSecs: 900,
 		Rule:        "one run = one mmap-opened (or in-memory) segment and a balanced seeded history of AddRef / DecRef / Close, sequential with a read sweep between any two operations, or 2-5 holder tasks interleaved with the owner's Close and with readers; reference counter model, /proc/self/maps and /proc/self/fd inspected after the last release; non-trivial = at least 3 reference operations with reads in between; distinct = distinct digests of the run's event log",
 		Assumptions: []string{sampAssume, "race variant: Go race detector under an invisible (raw-syscall) baton"}},
 }
